@@ -222,3 +222,7 @@ Definition optN_eqb (a b : option N) : bool :=
   match a, b with Some x, Some y => N.eqb x y | None, None => true | _, _ => false end.
 Definition check_ippo_masks (ids : list agent) (infos : list (agent * N)) (obs : list (nat * list N)) : bool :=
   forallb (fun p => list_eqb optN_eqb (ippo_masks ids infos (fst p)) (map Some (snd p))) obs.
+
+(* row level (vectorised envs): the [n_agents, E, n] stack viewed as [n_agents*E, n], one number per row *)
+Definition check_ippo_rows (ids : list agent) (d : list (agent * list N)) (obs : list (nat * list N)) : bool :=
+  forallb (fun p => list_eqb N.eqb (stack_rows ids d (fst p)) (snd p)) obs.
